@@ -7,12 +7,11 @@ import (
 	"encoding/json"
 	"encoding/xml"
 	"fmt"
-	"io"
 	"hash/fnv"
+	"io"
 	"regexp"
 	"sort"
 	"strings"
-	"sync"
 
 	"verifharness/vh"
 )
@@ -106,35 +105,31 @@ func isPrefixUpToLast(a, b []string) bool {
 }
 
 // scheduleCase runs every C15 comparison on one base input.
-func (e *engine) scheduleCase(c Case, r *vh.Rng, verboseOut bool) {
+func (s *sink) schedule(c Case, r *vh.Rng, thorough, verboseOut bool) {
 	base := c
 	base.Sched = wholeSched
 	ref := execCase(base)
-	e.account(base, ref)
+	s.account(base, ref)
 	if ref.Verdict == "panic" || ref.Verdict == "hang" {
-		e.panicOrHang(base, ref) // belongs to C05; counted there
-		repMu.Lock()
-		e.rep.Count("c15-skipped:" + ref.Verdict)
-		repMu.Unlock()
+		s.panicOrHang(base, ref) // belongs to C05; counted there
+		s.count("c15-skipped:" + ref.Verdict)
 		return
 	}
 	n := len(c.Input)
 	cmp := func(kind, what string, cc Case, got runResult) {
-		e.account(cc, got)
+		s.account(cc, got)
 		if got.Verdict == "panic" || got.Verdict == "hang" {
-			e.panicOrHang(cc, got)
+			s.panicOrHang(cc, got)
 			return
 		}
 		if got.Verdict == ref.Verdict && !sameStmts(got.Stmts, ref.Stmts) && sameModuloOrder(got.Stmts, ref.Stmts) {
-			e.k.add(violation{Prop: "C15", Kind: "order-only", Format: c.Format, Sub: "statement-order",
+			s.add(violation{Prop: "C15", Kind: "order-only", Format: c.Format, Sub: "statement-order",
 				Detail: fmt.Sprintf("same statements (modulo blank-node labels) in a different order under %s: %s", what, firstDiff(ref.Stmts, got.Stmts)), Case: cc})
 		} else if got.Verdict != ref.Verdict || !sameStmts(got.Stmts, ref.Stmts) {
-			e.k.add(violation{Prop: "C15", Kind: kind, Format: c.Format, Sub: what,
+			s.add(violation{Prop: "C15", Kind: kind, Format: c.Format, Sub: what,
 				Detail: fmt.Sprintf("reference (whole): %s/%d statements; %s: %s/%d statements; %s; errors %q vs %q", ref.Verdict, len(ref.Stmts), what, got.Verdict, len(got.Stmts), firstDiff(ref.Stmts, got.Stmts), clip(ref.Err), clip(got.Err)), Case: cc})
 		} else if got.Err != ref.Err {
-			repMu.Lock()
-			e.rep.Count("same-verdict-different-message:" + c.Format)
-			repMu.Unlock()
+			s.count("same-verdict-different-message:" + c.Format)
 		}
 	}
 	// determinism
@@ -148,7 +143,7 @@ func (e *engine) scheduleCase(c Case, r *vh.Rng, verboseOut bool) {
 	}
 	// reader faults
 	var faultPos []int
-	if e.thorough && n <= 4096 {
+	if thorough && n <= 4096 {
 		for p := 0; p <= n; p += 16 {
 			faultPos = append(faultPos, p)
 		}
@@ -166,25 +161,23 @@ func (e *engine) scheduleCase(c Case, r *vh.Rng, verboseOut bool) {
 			cc.Sched.Chunk = "rand"
 		}
 		got := execCase(cc)
-		e.account(cc, got)
+		s.account(cc, got)
 		switch {
 		case got.Verdict == "panic" || got.Verdict == "hang":
-			e.panicOrHang(cc, got)
+			s.panicOrHang(cc, got)
 		case got.Delivered && got.Verdict != "error":
-			e.k.add(violation{Prop: "C15", Kind: "fault-swallowed", Format: c.Format, Sub: cc.Sched.Fault, Detail: fmt.Sprintf("reader failed at offset %d of %d but the decoder ended cleanly with %d statements", p, n, len(got.Stmts)), Case: cc})
+			s.add(violation{Prop: "C15", Kind: "fault-swallowed", Format: c.Format, Sub: cc.Sched.Fault, Detail: fmt.Sprintf("reader failed at offset %d of %d but the decoder ended cleanly with %d statements", p, n, len(got.Stmts)), Case: cc})
 		case streaming[c.Format] && ref.Verdict == "clean" && !isPrefixUpToLast(got.Stmts, ref.Stmts):
-			e.k.add(violation{Prop: "C15", Kind: "prefix", Format: c.Format, Sub: "fault", Detail: "statements before the reader fault are not a prefix of the complete document's: " + firstDiff(got.Stmts, ref.Stmts), Case: cc})
+			s.add(violation{Prop: "C15", Kind: "prefix", Format: c.Format, Sub: "fault", Detail: "statements before the reader fault are not a prefix of the complete document's: " + firstDiff(got.Stmts, ref.Stmts), Case: cc})
 		}
 		if !got.Delivered {
-			repMu.Lock()
-			e.rep.Count("fault-not-reached:" + c.Format)
-			repMu.Unlock()
+			s.count("fault-not-reached:" + c.Format)
 		}
 	}
 	// truncation
 	if ref.Verdict == "clean" {
 		step := 16
-		if e.thorough && n <= 2048 {
+		if thorough && n <= 2048 {
 			step = 1
 		}
 		for k := 1 + r.Intn(step); k < n; k += step {
@@ -193,24 +186,22 @@ func (e *engine) scheduleCase(c Case, r *vh.Rng, verboseOut bool) {
 			cc.Sched = wholeSched
 			cc.Family = "truncated"
 			got := execCase(cc)
-			e.account(cc, got)
+			s.account(cc, got)
 			switch {
 			case got.Verdict == "panic" || got.Verdict == "hang":
-				e.panicOrHang(cc, got)
+				s.panicOrHang(cc, got)
 			case !streaming[c.Format] && got.Verdict == "clean" && detectableCut(c.Format, c.Opts, c.Input, k):
-				e.k.add(violation{Prop: "C15", Kind: "truncation-accepted", Format: c.Format, Sub: "carrier-syntax", Detail: fmt.Sprintf("document cut at offset %d of %d (inside the JSON text / XML root element) ended cleanly with %d statements", k, n, len(got.Stmts)), Case: cc})
+				s.add(violation{Prop: "C15", Kind: "truncation-accepted", Format: c.Format, Sub: "carrier-syntax", Detail: fmt.Sprintf("document cut at offset %d of %d (inside the JSON text / XML root element) ended cleanly with %d statements", k, n, len(got.Stmts)), Case: cc})
 			case streaming[c.Format] && !isPrefixUpToLast(got.Stmts, ref.Stmts):
-				e.k.add(violation{Prop: "C15", Kind: "prefix", Format: c.Format, Sub: "truncation", Detail: "statements of the truncated document are not a prefix of the complete document's: " + firstDiff(got.Stmts, ref.Stmts), Case: cc})
+				s.add(violation{Prop: "C15", Kind: "prefix", Format: c.Format, Sub: "truncation", Detail: "statements of the truncated document are not a prefix of the complete document's: " + firstDiff(got.Stmts, ref.Stmts), Case: cc})
 			}
 			if detectableCut(c.Format, c.Opts, c.Input, k) {
-				repMu.Lock()
-				e.rep.Count("detectable-cuts:" + c.Format)
-				repMu.Unlock()
+				s.count("detectable-cuts:" + c.Format)
 			}
 		}
 	}
 	if verboseOut {
-		fmt.Printf("replay C15 %s: reference %s/%d statements err=%q\n", c.Format, ref.Verdict, len(ref.Stmts), ref.Err)
+		s.Log = append(s.Log, fmt.Sprintf("replay C15 %s: reference %s/%d statements err=%q", c.Format, ref.Verdict, len(ref.Stmts), ref.Err))
 	}
 }
 
@@ -223,78 +214,50 @@ func (e *engine) runSchedules() {
 		maxLen = 16384
 	}
 	nDocs, nMut = nDocs*e.scale, nMut*e.scale
-	type job struct {
-		c Case
-		r *vh.Rng
-	}
-	ch := make(chan job, 64)
-	var wg sync.WaitGroup
-	for i := 0; i < e.nw; i++ {
-		wg.Add(1)
-		go func() {
-			defer wg.Done()
-			for j := range ch {
-				e.scheduleCase(j.c, j.r, false)
-			}
-		}()
-	}
-	emit := func(c Case) {
-		if e.has(c.Format) {
-			ch <- job{c, r.Fork()}
+	e.farm(e.nw, func(emitJob func(job)) {
+		emit := func(c Case) {
+			emitJob(job{Kind: jobSchedule, C: c, Seed: r.U64(), Thorough: e.thorough})
 		}
-	}
-	for _, w := range e.corp.Round0 {
-		if strings.HasPrefix(w.Name, "c05x/c15-") {
-			for _, f := range formatsOfWitness(w.Name) {
-				emit(Case{Format: f, Opts: e.randOpts(r, f), Input: w.B, Family: "witness", Name: w.Name})
-			}
-		}
-	}
-	for _, f := range allFormats {
-		ss := e.seeds(f)
-		if len(ss) == 0 {
-			continue
-		}
-		pick := func() Seed {
-			for i := 0; i < 50; i++ {
-				s := vh.Pick(r, ss)
-				if len(s.B) <= maxLen && len(s.B) > 0 {
-					return s
+		for _, w := range e.corp.Round0 {
+			if strings.HasPrefix(w.Name, "c05x/c15-") {
+				for _, f := range formatsOfWitness(w.Name) {
+					emit(Case{Format: f, Opts: e.randOpts(r, f), Input: w.B, Family: "witness", Name: w.Name})
 				}
 			}
-			return ss[0]
 		}
-		for i := 0; i < nDocs; i++ {
-			s := pick()
-			emit(Case{Format: f, Opts: e.randOpts(r, f), Input: s.B, Family: "suite", Name: s.Name})
-		}
-		hot := hotFor(f)
-		for i := 0; i < nMut; i++ {
-			s := pick()
-			emit(Case{Format: f, Opts: e.randOpts(r, f), Input: mutate(r, s.B, hot), Family: "mutated", Name: s.Name})
-		}
-		// multi-byte and escape heavy documents: the mid-rune schedule needs something to split
-		for _, g := range hugeGens[f] {
-			if strings.Contains(g.Name, "escapes") || strings.Contains(g.Name, "uchar") || strings.Contains(g.Name, "entities") || g.Name == "text" || g.Name == "string" || g.Name == "string-value" {
-				in := bytes.ReplaceAll(g.F(600), []byte("aaa"), []byte("é🐛a"))
-				emit(Case{Format: f, Opts: e.randOpts(r, f), Input: in, Family: "multibyte", Name: g.Name})
+		for _, f := range allFormats {
+			ss := e.seeds(f)
+			if len(ss) == 0 {
+				continue
+			}
+			pick := func() Seed {
+				for i := 0; i < 50; i++ {
+					s := vh.Pick(r, ss)
+					if len(s.B) <= maxLen && len(s.B) > 0 {
+						return s
+					}
+				}
+				return ss[0]
+			}
+			for i := 0; i < nDocs; i++ {
+				s := pick()
+				emit(Case{Format: f, Opts: e.randOpts(r, f), Input: s.B, Family: "suite", Name: s.Name})
+			}
+			hot := hotFor(f)
+			for i := 0; i < nMut; i++ {
+				s := pick()
+				emit(Case{Format: f, Opts: e.randOpts(r, f), Input: mutate(r, s.B, hot), Family: "mutated", Name: s.Name})
+			}
+			// multi-byte and escape heavy documents: the mid-rune schedule needs something to split
+			for _, g := range hugeGens[f] {
+				if strings.Contains(g.Name, "escapes") || strings.Contains(g.Name, "uchar") || strings.Contains(g.Name, "entities") || g.Name == "text" || g.Name == "string" || g.Name == "string-value" {
+					in := bytes.ReplaceAll(g.F(600), []byte("aaa"), []byte("é🐛a"))
+					emit(Case{Format: f, Opts: e.randOpts(r, f), Input: in, Family: "multibyte", Name: g.Name})
+				}
 			}
 		}
-	}
-	close(ch)
-	wg.Wait()
+	})
 	e.confirmSuspects()
-}
-
-// panicOrHang: a panic is judged at once (it belongs to C05); a watchdog hit is confirmed in a child first.
-func (e *engine) panicOrHang(c Case, r runResult) {
-	if r.Verdict == "hang" {
-		repMu.Lock()
-		e.suspects = append(e.suspects, c)
-		repMu.Unlock()
-		return
-	}
-	e.k.judge(c, r)
 }
 
 var reBn = regexp.MustCompile(`_:b[0-9]+`)
